@@ -23,6 +23,10 @@ LEVEL_TEXT = (
     "boundary, every mid-step point, a point beyond the end), absolute or relative, on a fresh simulator, one continued "
     "after simulate(1) and one continued after an override, is run through simulate_protocol_time_course and "
     "simulate_protocol; index, values (closed form, rtol 5e-6), per-segment parameters and step-wise fluxes are checked."
+    " Added: start modes 'parameter changed after the earlier simulation', 'second protocol cycle with the same "
+    "grid object', 'continuing a simulation at t=500'; requested points 4e-6 / 1e-3 before and after a "
+    "boundary; step dictionaries with keys reversed / mixed between steps / naming one parameter only; integer "
+    "durations and integer time-point arrays. "
 )
 LEVEL_NOTE = "trusted: closed form of the linear ODE, scipy LSODA at 1e-8"
 RULE = (
